@@ -1,11 +1,128 @@
-//! C26 (not built yet)
-use crate::report::{Disagreement, Run};
-use serde_json::Value;
+//! C26 Saving to and loading from the internal binary format is lossless.
 
-pub fn run(run: &mut Run) {
-    run.machinery_errors.push("C26: check not built yet".into());
+use crate::hist::{self, HistCfg};
+use crate::obs::{self, ObsOpts};
+use crate::ops::Op;
+use crate::props::c01::classes;
+use crate::report::{Disagreement, Run};
+use crate::seeds;
+use ironcalc_base::UserModel;
+use serde_json::{json, Value};
+
+pub struct Out {
+    pub ds: Vec<Disagreement>,
+    pub key: u128,
 }
 
-pub fn replay(_case: &Value) -> Vec<Disagreement> {
-    vec![]
+pub fn judge(seed: &'static str, word: &[Op]) -> Option<Out> {
+    let case = hist::case_json(seed, word);
+    let (um, fail) = hist::replay(seed, word);
+    if fail.is_some() {
+        return None;
+    }
+    let mut ds = vec![];
+    let o = ObsOpts { view: true, ..Default::default() };
+    let key = obs::state_key(um.get_model());
+    let last = word.last().map(|x| x.kind()).unwrap_or("seed");
+    let bytes = um.to_bytes();
+    let lang = um.get_language();
+    let lang_static: &'static str = crate::props::c23::LANGS.iter().find(|l| **l == lang).copied().unwrap_or("en");
+    let r = crate::env::guarded(|| UserModel::from_bytes(&bytes, lang_static));
+    let mut um2 = match r {
+        Err(p) => {
+            ds.push(Disagreement { sig: format!("panic from_bytes at={}", p.split(" @ ").last().unwrap_or("")), case, detail: p });
+            return Some(Out { ds, key });
+        }
+        Ok(Err(e)) => {
+            ds.push(Disagreement { sig: format!("from_bytes-error last-op={}", last), case, detail: format!("from_bytes(to_bytes(m)) failed: {}", e) });
+            return Some(Out { ds, key });
+        }
+        Ok(Ok(m)) => m,
+    };
+    // 1. identical workbook structure
+    if um.get_model().workbook != um2.get_model().workbook {
+        let a = format!("{:?}", um.get_model().workbook);
+        let b = format!("{:?}", um2.get_model().workbook);
+        let pos = a.bytes().zip(b.bytes()).position(|(x, y)| x != y).unwrap_or(0);
+        let lo = pos.saturating_sub(60);
+        ds.push(Disagreement {
+            sig: format!("workbook-differs-after-reload last-op={}", last),
+            case: case.clone(),
+            detail: format!("decode(encode(w)) != w near: `{}` vs `{}`", &a[lo..(pos + 60).min(a.len())], &b[lo..(pos + 60).min(b.len())]),
+        });
+    }
+    // 2. identical observation (contents, formula texts, values, styles ...) before and after an extra evaluate
+    let oa = obs::observe(&um, &o);
+    let ob = obs::observe(&um2, &o);
+    if oa != ob {
+        let df = obs::diff(&oa, &ob);
+        ds.push(Disagreement {
+            sig: format!("observation-differs-after-reload fields={}", classes(&df)),
+            case: case.clone(),
+            detail: format!("reloaded model (right) differs from the original (left):\n{}", obs::diff_text(&df, 8)),
+        });
+    } else {
+        um2.evaluate();
+        let oc = obs::observe(&um2, &o);
+        if oa != oc {
+            let df = obs::diff(&oa, &oc);
+            ds.push(Disagreement {
+                sig: format!("evaluation-after-reload-differs fields={}", classes(&df)),
+                case: case.clone(),
+                detail: format!("evaluating the reloaded model changes it (right) against the original (left):\n{}", obs::diff_text(&df, 8)),
+            });
+        }
+    }
+    Some(Out { ds, key })
+}
+
+pub fn run(run: &mut Run) {
+    let thorough = run.tier.thorough();
+    let mut full = seeds::alphabet_full();
+    full.extend(vec![Op::SetLanguage("de".into()), Op::SetLanguage("fr".into()), Op::Undo]);
+    let core = seeds::alphabet_core();
+    let all_seeds: Vec<&'static str> = seeds::SEEDS.to_vec();
+    let mut plans: Vec<(HistCfg, usize, &str)> = vec![
+        (HistCfg { seeds: all_seeds.clone(), alphabet: full.clone(), depth: 1 }, 1, "full"),
+        (HistCfg { seeds: if thorough { all_seeds.clone() } else { vec!["basic"] }, alphabet: full.clone(), depth: 2 }, 2, "full"),
+    ];
+    if thorough {
+        plans.push((HistCfg { seeds: vec!["basic"], alphabet: core.clone(), depth: 3 }, 3, "core"));
+    }
+    let mut keys = std::collections::HashSet::new();
+    let mut bounds = vec![];
+    for (cfg, len, name) in &plans {
+        let (outs, st, errs) = hist::explore(cfg, *len, &judge);
+        for e in errs {
+            run.machinery_errors.push(e);
+        }
+        for w in outs {
+            run.evaluations += 1;
+            run.traces += 1;
+            run.transitions += *len as u64 + 3;
+            keys.insert(w.key);
+            run.add_all(w.ds);
+        }
+        bounds.push(json!({"alphabet": name, "alphabet_size": cfg.alphabet.len(), "length": len, "seeds": cfg.seeds, "histories_ok": st.words}));
+        if run.elapsed() > if thorough { 3000.0 } else { 100.0 } {
+            run.cap_hit = Some(format!("wall clock after plan {} len {}", name, len));
+            break;
+        }
+    }
+    run.states = keys.len() as u64;
+    run.nontrivial = keys.len() as u64;
+    run.distinct_outcomes = keys.len() as u64;
+    run.bound = json!({"plans": bounds, "hash_seed": crate::env::hash_seed()});
+    run.rule = "every state reached by a history of the stated length (all operations Ok) from each seed; for each: decode(encode(workbook)) must equal the workbook (PartialEq on the whole structure), the reloaded model's observation (contents, formula texts, values, styles, view) must equal the original's, and an extra evaluate() on the reloaded model must change nothing. states / non-trivial = distinct canonical keys of the states round-tripped".into();
+    run.sample(hist::case_json("basic", &[full[7].clone()]));
+    run.sample(hist::case_json("imported", &[full[22].clone(), full[60].clone()]));
+    run.sample(hist::case_json("basic", &[Op::SetLanguage("de".into()), full[9].clone()]));
+    run.assume("the reload uses the language the model was in (from_bytes takes the language as an argument)");
+}
+
+pub fn replay(case: &Value) -> Vec<Disagreement> {
+    match hist::case_parse(case) {
+        Some((seed, ops)) => judge(hist::seed_name(&seed), &ops).map(|w| w.ds).unwrap_or_default(),
+        None => vec![],
+    }
 }
